@@ -500,7 +500,7 @@ def r20_1(ctx, rr):
             rr.check(len(rebuilds) == 1, "%s:rebuilds-decoder" % short_fn(b.key), "%s must re-create its decoder on rewind" % b.key, b.span)
 
 
-@rule("R20.2", props=["C20"], floor=3, title="FromIntoIterator::rewind restarts from the pristine clone; Take::rewind; shared line reader")
+@rule("R20.2", props=["C20", "C17"], floor=3, title="FromIntoIterator::rewind restarts from the pristine clone; Take::rewind; shared line reader")
 def r20_2(ctx, rr):
     F = ctx.F()
     b = F.one(r"^<utils::lenders::FromIntoIterator<I> as utils::lenders::RewindableIoLender<T>>::rewind$")
@@ -518,10 +518,27 @@ def r20_2(ctx, rr):
     nb = F.one(r"^utils::lenders::next$")
     s = show(F, nb.body)
     rr.instances += 1
-    rr.check(s.strip().startswith("{\n  line.clear();") or "line.clear();" in s.split("match")[0], "lenders::next:clears-buffer", "the shared line reader must clear the buffer before reading", nb.span)
+    rr.check(s.strip().startswith("{\n  line.clear();") or "line.clear();" in s.split("match")[0], "lenders::next:clears-buffer", "the shared line reader must clear the buffer before reading", nb.span, props=["C20"])
     m = [n for n in walk(nb.body) if n.get("k") == "Match" and n["e"].get("k") == "MethodCall" and n["e"]["name"] == "read_line"]
     if len(m) != 1:
         raise AnchorMissing("lenders::next: expected `match buf.read_line(line)`")
+    # the line is read from the reader itself (an adapter such as take() would cut long lines) into the
+    # caller's buffer
+    rr.instances += 1
+    pids = [p_.get("id") for p_ in nb.params]
+    recv = m[0]["e"]["recv"]
+    while recv.get("k") in ("AddrOf",) or (recv.get("k") == "Unary" and recv.get("op") == "*"):
+        recv = recv["e"]
+    arg0 = m[0]["e"]["args"][0] if m[0]["e"].get("args") else {}
+    while arg0.get("k") in ("AddrOf",) or (arg0.get("k") == "Unary" and arg0.get("op") == "*"):
+        arg0 = arg0["e"]
+    rr.check(recv.get("k") == "Path" and recv.get("id") == pids[0] and arg0.get("k") == "Path" and arg0.get("id") == pids[1], "lenders::next:reads-whole-line-from-reader", "the shared line reader must call read_line directly on its reader argument with the caller's buffer (found `%s`): an adapter in between changes what one item is" % show(F, m[0]["e"])[:100], nb.span, props=["C20"])
+    # every Err arm propagates the error, unconditionally
+    rr.instances += 1
+    err_arms = [a for a in m[0]["arms"] if a["pat"].get("name") == "Err" or show_pat(F, a["pat"]).startswith("Err")]
+    bad = [a for a in err_arms if "guard" in a or not show(F, a["body"]).startswith("v1::Some(v1::Err(")]
+    wild = [a for a in m[0]["arms"] if a["pat"].get("k") in ("PWild",) or (a["pat"].get("k") == "PBind" and not a["pat"].get("name", "")[:1].isupper())]
+    rr.check(bool(err_arms) and not bad and not wild, "lenders::next:every-error-propagated", "the shared line reader must hand every read error to the caller (`Err(e) => Some(Err(e))`, no guarded or catch-all arm): an error mapped to None is an input silently cut short", nb.span)
     arms = {}
     for a in m[0]["arms"]:
         pat = a["pat"]
@@ -549,7 +566,7 @@ def r20_2(ctx, rr):
             c0 = [x for x in walk(outer["c"]) if x.get("k") == "Lit"]
             c1 = [x for x in walk(inner["c"]) if x.get("k") == "Lit"]
             ok = nested and len(pops) == 2 and c0 and c0[0].get("v") == "\n" and c1 and c1[0].get("v") == "\r" and "el" not in outer and "el" not in inner
-    rr.check(ok, "lenders::next:strips-terminator", "the line reader must strip exactly one trailing LF and then, only if an LF was stripped, one CR", nb.span)
+    rr.check(ok, "lenders::next:strips-terminator", "the line reader must strip exactly one trailing LF and then, only if an LF was stripped, one CR", nb.span, props=["C20"])
     # all line lenders use the shared reader
     nexts = [x for x in F.fns() if x.name == "next" and (x.impl_adt or "").endswith(("LineLender",)) and x.impl_trait and x.impl_trait.endswith("Lender")]
     for x in nexts:
@@ -654,3 +671,120 @@ def r07_6(ctx, rr):
                         ok = True
         rr.instances += 1
         rr.check(ok, "%s:incomplete-peel-detected" % short_fn(b.key), "%s must compare the number of keys of the shard with the number of peeled edges (%s) and leave (fallback/Err) when they differ, before assigning values" % (b.key, lenfn), b.span)
+
+
+@rule("R17.4", props=["C17", "C07"], floor=2, title="par_solve: every channel endpoint the coordinating thread keeps is dropped before it blocks on the error channel (no worker or feeder can wait on it forever)")
+def r17_4(ctx, rr):
+    """The feeder blocks in `data_send.send` while any receiver of the data channel is alive, and the
+    coordinator's `err_recv` iteration ends only when every sender of the error channel is gone. The
+    coordinator keeps the originals it cloned for the workers: both must be dropped before it waits, or a
+    failed attempt (workers gone, shards still queued) never returns."""
+    F = ctx.F()
+    b = F.one(r"^func::vbuilder::VBuilder::<W, D, S, E>::par_solve$")
+    chans = []
+    for n in walk(b.body):
+        if n.get("k") == "LetStmt" and n["pat"].get("k") == "PTuple" and len(n["pat"]["ps"]) == 2 and "init" in n:
+            c = n["init"]
+            if c.get("k") == "Call" and (cname(F, c) or "").split("::")[-1] in ("bounded", "unbounded", "channel", "sync_channel"):
+                tx, rx = n["pat"]["ps"]
+                if tx.get("k") == "PBind" and rx.get("k") == "PBind":
+                    chans.append((tx, rx))
+    if len(chans) < 2:
+        raise AnchorMissing("par_solve: expected the error and the data channel, found %d channels" % len(chans))
+    # the coordinating closure: the one passed to thread::scope
+    scope_calls = [n for n in walk(b.body) if n.get("k") == "Call" and (cname(F, n) or "").endswith("thread::scope")]
+    if not scope_calls:
+        raise AnchorMissing("par_solve: no std::thread::scope call")
+    main = [a for a in scope_calls[0]["args"] if a.get("k") == "Closure"][0]
+    order = []
+    depth_of = {}
+
+    def visit(n, depth):
+        order.append(n)
+        depth_of[id(n)] = depth
+        for c in kids(n):
+            visit(c, depth + (1 if c.get("k") == "Closure" else 0))
+    visit(main["body"], 0)
+    pos = {id(n): i for i, n in enumerate(order)}
+    ends = {}
+    for tx, rx in chans:
+        ends[tx["id"]] = tx["name"]
+        ends[rx["id"]] = rx["name"]
+    uses = {i: [] for i in ends}
+    for n in order:
+        if n.get("k") == "Path" and n.get("res") == "local" and n.get("id") in uses:
+            uses[n["id"]].append(n)
+    # where the coordinator blocks: first receive on an endpoint outside nested closures
+    block = None
+    for n in order:
+        if depth_of[id(n)] == 0 and n.get("k") == "MethodCall" and n["name"] in ("recv", "into_iter", "iter", "try_iter", "recv_timeout") and n["recv"].get("k") == "Path" and n["recv"].get("id") in ends:
+            block = n
+            break
+    if block is None:
+        raise AnchorMissing("par_solve: the coordinating thread never receives from a channel")
+    waited = block["recv"]["id"]
+    drops = {}
+    for n in order:
+        if depth_of[id(n)] == 0 and n.get("k") == "Call" and (cname(F, n) or "").endswith("mem::drop") and n["args"] and n["args"][0].get("k") == "Path":
+            drops.setdefault(n["args"][0].get("id"), []).append(n)
+    for eid, name in sorted(ends.items(), key=lambda kv: kv[1]):
+        if eid == waited:
+            continue
+        us = uses[eid]
+        moved = any(depth_of[id(u)] > 0 for u in us)
+        if moved and not any(depth_of[id(u)] == 0 for u in us):
+            continue    # lives in a spawned thread only
+        rr.instances += 1
+        ok = any(pos[id(d)] < pos[id(block)] for d in drops.get(eid, [])) or (moved and not [u for u in us if depth_of[id(u)] == 0 and pos[id(u)] < pos[id(block)]])
+        key = "par_solve:%s-dropped-before-wait" % name
+        rr.ob(ok, key=key, sample={"endpoint": name, "waits_on": ends[waited], "dropped_before_wait": ok})
+        if not ok:
+            rr.violate(key, "par_solve keeps the channel endpoint `%s` alive while it blocks on `%s` (%s): with the endpoint alive the other side never sees the channel closed -- a failed attempt whose workers have exited leaves the feeder blocked in send (or the error iteration open) and the build never returns" % (name, ends[waited], show(F, block)[:60]), F.loc(block))
+
+
+@rule("R17.5", props=["C17"], floor=2, title="a failure that try_seed reports before duplicate detection has run is retried a bounded number of times")
+def r17_5(ctx, rr):
+    """Duplicates are detected per shard inside par_solve. A SolveError that try_seed itself returns before
+    it reaches try_build_from_shard_iter is decided on the raw shard sizes, which duplicates inflate: if its
+    arm in build_loop retries without a counter, a key set with many copies of one key is retried forever
+    (every seed puts all copies in one shard) and the duplicates are never reported."""
+    F = ctx.F()
+    ts = F.one(r"^func::vbuilder::VBuilder::<W, D, S, E>::try_seed$")
+    bl = F.one(r"^func::vbuilder::VBuilder::<W, D, S, E>::build_loop$")
+    order = list(walk(ts.body))
+    pos = {id(n): i for i, n in enumerate(order)}
+    solve_calls = [n for n in order if n.get("k") == "MethodCall" and n["name"] in ("try_build_from_shard_iter", "par_solve")]
+    if not solve_calls:
+        raise AnchorMissing("try_seed does not call try_build_from_shard_iter")
+    first_solve = min(pos[id(n)] for n in solve_calls)
+    pm = {id(n): ps for n, ps in walk_with_parents(ts.body)}
+    early = set()
+    for n in order:
+        if n.get("k") == "Path" and (F.defpath(n) or "").startswith("func::vbuilder::SolveError::"):
+            # not in a branch that also contains the solve call's block *after* it: i.e. produced without solving
+            ps = pm[id(n)]
+            in_solve_arg = any(any(x is s for x in walk(p)) for p in ps[-3:] for s in solve_calls if p.get("k") in ("MethodCall", "Call"))
+            if not in_solve_arg:
+                early.add(F.defpath(n).split("::")[-1])
+    dm = [n for n in walk(bl.body) if n.get("k") == "Match" and n["e"].get("k") == "MethodCall" and n["e"]["name"] == "downcast"]
+    if len(dm) != 1:
+        raise AnchorMissing("build_loop: expected one `match error.downcast::<SolveError>()`")
+    ok_arm = [a for a in dm[0]["arms"] if a["pat"].get("name") == "Ok"]
+    inner = [n for n in walk(ok_arm[0]["body"]) if n.get("k") == "Match"] if ok_arm else []
+    if not inner:
+        raise AnchorMissing("build_loop: no match on the SolveError variants")
+    variants = {a["pat"].get("name", "?"): a for a in inner[0]["arms"]}
+    rr.instances += 1
+    rr.ob(True, key="try_seed:early-errors", sample={"errors returned by try_seed before any shard is analysed": sorted(early)})
+    for v in sorted(early):
+        a = variants.get(v)
+        rr.instances += 1
+        bounded = False
+        if a is not None:
+            for x in walk(a["body"]):
+                if x.get("k") == "If" and x["c"].get("k") == "Binary" and x["c"]["op"] in (">=", ">") and diverges(F, x["th"]) and any(y.get("k") == "Ret" for y in walk(x["th"])):
+                    bounded = True
+        key = "build_loop:%s:unbounded-retry-before-duplicate-detection" % v
+        rr.ob(bounded, key=key)
+        if not bounded:
+            rr.violate(key, "try_seed returns SolveError::%s before duplicate detection (which happens per shard in par_solve), and build_loop retries it without a bound: with check_dups(true) and many copies of one key every seed fails the same way, DuplicateKey is never reported and the call does not terminate" % v, F.loc(a["body"]) if a is not None else bl.span)
